@@ -921,6 +921,10 @@ def run(ctx: Ctx, rep: Report, tier: str) -> None:
     option_partition(ctx, rep)
     has_port_twin(ctx, rep)
     validated_before_stored(ctx, rep)
+    # R01.15 an address in the text is read whole (C13 R13.7)
+    from .c13 import address_patterns_whole
+
+    address_patterns_whole(ctx, rep, rid="R01.15")
     normaliser_total(ctx, rep)
     # R01.9 operands of a valid ACE are accepted: the operand range is exactly the port universe (C08 R08.8)
     from .c08 import operand_range
